@@ -13,8 +13,9 @@ Points where the model follows the code literally:
 * a literal kind (text, code, html_block, html_inline, raw, code_block, math) writes
   `... xml:space="preserve">` + escaped literal + `</name` and `>\n`; if such a node has
   children they are still traversed and a second `</name>` is written on the way out;
-* `EscapedTag` writes its payload verbatim right after the element name and the optional
-  sourcepos attribute, i.e. inside the start tag (`XAttr.raw`);
+* `EscapedTag` writes its payload as the escaped value of an attribute `tag`, after the
+  optional sourcepos attribute like every other per-kind attribute (since /repo commit
+  ce28ea3; before that the payload was written verbatim inside the start tag);
 * header-row cells read `alignments[ix]`; an out-of-range index (a panic in the code) is
   modelled as "no attribute" and is outside the correspondence.
 -/
@@ -73,10 +74,9 @@ inductive XVal where
   | lit (v : Bytes)    -- comrak's own text (fixed words, decimals), written as is
   deriving Repr, DecidableEq, Inhabited
 
-/-- One piece of a start tag after the element name. -/
+/-- One piece of a start tag after the element name: always an attribute ` name="value"`. -/
 inductive XAttr where
   | mk (name : Bytes) (val : XVal)     -- ` name="value"`
-  | raw (bs : Bytes)                   -- bytes written verbatim inside the tag (EscapedTag)
   deriving Repr, DecidableEq, Inhabited
 
 inductive XTok where
@@ -97,7 +97,6 @@ def XVal.spell : XVal → Bytes
 
 def XAttr.spell : XAttr → Bytes
   | .mk n v => [0x20] ++ n ++ [0x3D, 0x22] ++ v.spell ++ [0x22]
-  | .raw bs => bs
 
 def spellXAttrs (as : List XAttr) : Bytes := as.flatMap XAttr.spell
 
@@ -233,7 +232,7 @@ def xmlKindAttrs (cx : XCtx) : NodeValue → List XAttr
   | .math _ display _ =>
     [xAttr XS.a_math_style (if display then XS.v_display else XS.v_inline), preserveAttr]
   | .wikiLink url => [xAttrE XS.a_destination url]
-  | .escapedTag s => [.raw s]
+  | .escapedTag s => [xAttrE XS.a_tag s]
   | .alert ty title multiline _ _ =>
     [xAttr XS.a_type (alertXmlType ty)] ++
     (match title with | some t => [xAttrE XS.a_title t] | none => []) ++
@@ -285,8 +284,6 @@ def litLeafF : Forest → Bool
   | .cons t ts => litLeafT t && litLeafF ts
 end
 
-def isEscapedTag : NodeValue → Bool | .escapedTag _ => true | _ => false
-
 mutual
 /-- Every node value of the tree satisfies `q`. -/
 def Tree.allV (q : NodeValue → Bool) : Tree → Bool
@@ -295,9 +292,6 @@ def Forest.allV (q : NodeValue → Bool) : Forest → Bool
   | .nil => true
   | .cons t ts => Tree.allV q t && Forest.allV q ts
 end
-
-/-- The tree contains no `EscapedTag` node. -/
-def noEscapedTagT (t : Tree) : Bool := t.allV fun v => !isEscapedTag v
 
 /-! ## Token accessors -/
 
